@@ -94,6 +94,11 @@ class Ctx:
         self.t0 = time.time()
         self.rng = random.Random(seed)
         self.build = os.path.join(VERIF, 'build', prop)
+        # one run per property at a time (the build directory is per property): held until the process exits
+        os.makedirs(os.path.join(VERIF, 'build'), exist_ok=True)
+        self._runlock = open(os.path.join(VERIF, 'build', '.run_%s.lock' % prop), 'w')
+        fcntl.flock(self._runlock, fcntl.LOCK_EX)
+        self.t0 = time.time()
         shutil.rmtree(self.build, ignore_errors=True)
         os.makedirs(self.build, exist_ok=True)
         self.obligations = []          # (name, ok, detail)
